@@ -22,7 +22,7 @@ RULE = ("Hypothesis: general graphs x {all_classes_mode, target_classes} x switc
         "shape has exactly one path.  Non-trivial: the document has >=1 shape reference and (a removed shape, a prefix collision, "
         "a custom namespace or Turtle-declared prefixes); distinct by SHA-1 of the case.")
 ASSUMPTIONS = c01.ASSUMPTIONS + ["rdflib 6.0.2 Turtle parser as the SHACL syntax oracle"]
-BUDGET = {"quick": {"examples": 12000, "wall": 150}, "thorough": {"examples": 120000, "wall": 3000}}
+BUDGET = {"quick": {"examples": 12000, "wall": 150}, "thorough": {"examples": 400000, "wall": 5400}}
 FLOORS = {"nontrivial": 0.15, "shacl": 0.12, "shexc": 0.3, "shape-map-chain": 0.1, "cascade": 0.01}
 SH = "http://www.w3.org/ns/shacl#"
 NS_DICTS = [
